@@ -376,7 +376,10 @@ var spec = run.Spec[Case]{ID: "C09", Name: "measure", Gen: genCase, Prop: prop, 
 
 func TestPropMeasure(t *testing.T) { run.Generated(t, spec) }
 func TestRegress(t *testing.T)     { run.Regress(t, spec) }
-func TestReplay(t *testing.T)      { run.ReplayOne(t, spec) }
+func TestReplay(t *testing.T) {
+	run.ReplayOne(t, spec)
+	run.ReplayOne(t, bigSpec)
+}
 
 func evMax(name string, v float64) { ev.Default.MaxOf(name, v) }
 
